@@ -49,6 +49,8 @@ async def segment_fetcher(app: NDNApp, name: NonStrictName, timeout=4000, retry_
     name = Name.normalize(name)
     # First Interest
     name, meta, content = await retry(True)
+    # The final segment may be announced ahead of time by any earlier segment: remember the latest announcement
+    final_id = meta.final_block_id
     # If it's not segmented
     if Component.get_type(name[-1]) != Component.TYPE_SEGMENT:
         yield content
@@ -56,7 +58,7 @@ async def segment_fetcher(app: NDNApp, name: NonStrictName, timeout=4000, retry_
     # If it's segmented
     if Component.to_number(name[-1]) == 0:
         yield content
-        if meta.final_block_id == name[-1]:
+        if final_id == name[-1]:
             return
         seg_no = 1
     else:
@@ -67,7 +69,9 @@ async def segment_fetcher(app: NDNApp, name: NonStrictName, timeout=4000, retry_
         # The returned name may be shared with other receivers of the same Data: do not modify it in place
         name = name[:-1] + [Component.from_segment(seg_no)]
         name, meta, content = await retry(False)
+        if meta.final_block_id is not None:
+            final_id = meta.final_block_id
         yield content
-        if meta.final_block_id == name[-1]:
+        if final_id == name[-1]:
             return
         seg_no += 1
